@@ -486,6 +486,17 @@ def rule_F6(ctx):
                f"sum {sum(h)} k {k} len {len(h)} delay {d}", inst="roland-fir-constants", file=COMMON, qualname="<module>")
     except (NotConst, AttributeError, IndexError) as e:
         raise AnalysisError("F6", COMMON, f"preset constants not foldable: {e}")
+    # element types of the coefficient tables: the first block is convolved against the float64 zero history, later blocks against a view
+    # of the caller's samples - with a kernel narrower than float64 numpy would pick a different result type for the two cases, and the
+    # output would depend on where the block boundaries fall
+    want_dt = {"_cdxtract_roland_deemph_h": ("np.double", "np.float64", "numpy.float64", "numpy.double", "float", "'float64'", "'d'", "'f8'"),
+               "_chick_sys_roland_deemph_h": ("np.int16", "numpy.int16", "'int16'", "'i2'", "'h'")}
+    for nm_, okset in want_dt.items():
+        node_ = ctx.prog.assigned(COMMON, nm_, "F6")
+        dt_ = None
+        if isinstance(node_, ast.Call):
+            dt_ = next((norm(k_.value) for k_ in node_.keywords if k_.arg == "dtype"), norm(node_.args[1]) if len(node_.args) > 1 else None)
+        ctx.ob("F6", node_, f"{nm_} is stored as {okset[0]}", dt_ in okset, f"dtype {dt_}", inst=f"table-dtype:{nm_}", file=COMMON, qualname="<module>")
     # nothing else in the package subclasses or monkey-patches the filter cores
     for mm in ctx.prog.modules.values():
         if mm.path == COMMON:
